@@ -74,6 +74,18 @@ class GarbageCollector:
         """
         stats = {"data_files": 0, "manifest_files": 0, "manifest_lists": 0}
 
+        # 0. Load in-flight protection markers (and sweep abandoned ones) BEFORE
+        # reading the metadata. A transaction removes its markers only after
+        # its commit made its files reachable, so with this order every file of
+        # a transaction is covered by at least one of the two snapshots taken
+        # here: if its marker is already gone, the commit happened before the
+        # metadata read below and the file is reachable there; if the marker is
+        # still present, it is protected. Reading the metadata first leaves a
+        # window (commit + marker removal between the two reads) in which a
+        # just-committed file older than the grace period is neither reachable
+        # nor protected - and gets deleted.
+        protected_files = self._load_inflight_protection(inflight_timeout_ms)
+
         # 1. Refresh metadata to get latest view
         metadata = self.metadata_manager.refresh()
         if not metadata:
@@ -130,8 +142,7 @@ class GarbageCollector:
         logger.info(f"Found reachable: {len(reachable_manifest_lists)} manifest lists, "
                     f"{len(reachable_manifests)} manifests, {len(reachable_data_files)} data files")
 
-        # 3. Load in-flight protection markers (and sweep abandoned ones)
-        protected_files = self._load_inflight_protection(inflight_timeout_ms)
+        # 3. In-flight protection was loaded first (see step 0)
         if protected_files:
             logger.info(f"Protecting {len(protected_files)} in-flight files from GC")
 
